@@ -247,12 +247,15 @@ def search(ctx):
             la = float(rng.uniform(0.1, 1.4))
             pa = float(rng.uniform(0, 2 * math.pi))
             pol = (math.cos(pa), math.sin(pa))
-            sc = Sphere(n=m * NMED, r=x / K, center=(float(rng.uniform(-1, 1)), float(rng.uniform(-1, 1)), kz / K))
+            # the detector (focal) plane need not be z = 0 (a refocused image, data_grid(..., z=2.0)): the distance between particle
+            # and plane is what matters, scheduled over all three comparisons
+            zdet = [0.0, 2.0, 0.0, -1.5, 0.0, 3.25][i % 6]
+            sc = Sphere(n=m * NMED, r=x / K, center=(float(rng.uniform(-1, 1)), float(rng.uniform(-1, 1)), zdet + kz / K))
             npt = 4
             krho = rng.uniform(0, 25 if i % 4 else 80, size=npt)
             az = rng.uniform(0, 2 * math.pi, size=npt)
-            det = detector_points(x=sc.center[0] + krho / K * np.cos(az), y=sc.center[1] + krho / K * np.sin(az), z=0.0)
-            info = dict(kind="agree", m=cx(m), x=x, kz=kz, lens_angle=la, pol_angle=pa, krho=krho.tolist(), az=az.tolist())
+            det = detector_points(x=sc.center[0] + krho / K * np.cos(az), y=sc.center[1] + krho / K * np.sin(az), z=zdet)
+            info = dict(kind="agree", m=cx(m), x=x, kz=kz, lens_angle=la, pol_angle=pa, krho=krho.tolist(), az=az.tolist(), detector_z=zdet)
             kcase = i % 3
             F = lambda th: calc_field(det, sc, illum_polarization=pol, theory=th, **opt).transpose("point", "vector").values
             fm = F(MieLens(lens_angle=la))
